@@ -72,6 +72,7 @@ def body(mc, p):
                 mc.sleep(sub)
             def fn_j():
                 return None
+            t_call = mc.clock
             if p["api"] == "executor":
                 f = ex.submit_timeout(to, fn_j)
             elif p["api"] == "default":
@@ -80,8 +81,15 @@ def body(mc, p):
                 inp = ProbeFuture(mc, "in%d" % j)
                 inputs[j] = inp
                 f = F.f_timeout(inp, to)
-            # the deadline counts from the creation of the future (submit returning)
-            mc.emit("submit", j=j, deadline=mc.clock + (default if p["api"] == "default" else to))
+            # the deadline counts from the creation of the future: the library creates it right after the
+            # delegate's submit() returned (logged as base.submit).  With TM-instant that is also the instant
+            # at which submit() returns here; under a timer jump time may pass in between, and the earlier
+            # instant is the one the statement speaks of
+            t_created = t_call          # f_timeout: no delegate; the call itself is the earliest creation instant
+            if p["api"] != "f_timeout":
+                k_ = [k for k, it in enumerate(base.items) if it.fn is fn_j][0]
+                t_created = [e["t"] for e in mc.s.log if e["kind"] == "base.submit" and e["i"] == k_][0]
+            mc.emit("submit", j=j, deadline=t_created + (default if p["api"] == "default" else to))
             wrap(j, f)
             fs[j] = f
             if p.get("resubmit") and j == 0:
@@ -112,7 +120,7 @@ def body(mc, p):
                 return
             # complete the underlying work at deadline + comp
             if comp is not NEVER:
-                deadline = mc.clock + (default if p["api"] == "default" else to)
+                deadline = t_created + (default if p["api"] == "default" else to)
                 mc.sleep(max(deadline + comp - mc.clock, 0.0))
                 mc.emit("complete", j=j)
                 if p["api"] == "f_timeout":
